@@ -1,5 +1,5 @@
 #!/bin/bash
-# usage: tools_seedconfirm.sh <id> <PROP> : independently confirm a seeded change produced in /tmp/wt_<id> + /tmp/seed_<id>,
+# usage: [DEMO_ENV="VAR=val"] [DEMO_ARGS="--features serde-json"] tools_seedconfirm.sh <id> <PROP> : independently confirm a seeded change produced in /tmp/wt_<id> + /tmp/seed_<id>,
 # store it under /verif/seeded/<id>/ and remove the scratch worktree.
 set -u
 id="$1"; prop="$2"
@@ -9,9 +9,9 @@ git checkout -q -- . ; git clean -fdq tests 2>/dev/null
 git apply $sd/patch.diff || { echo "patch does not apply"; exit 3; }
 suite=$(cargo test --offline 2>&1 | grep -E "^test result" | tr '\n' ' ')
 mkdir -p tests; cp $sd/demo.rs tests/demo.rs
-with=$(cargo test --offline --test demo 2>&1 | grep -E "^test result" | tr '\n' ' ')
+with=$(env ${DEMO_ENV:-} cargo test --offline ${DEMO_ARGS:-} --test demo 2>&1 | grep -E "^test result" | tr '\n' ' ')
 git checkout -q -- src
-without=$(cargo test --offline --test demo 2>&1 | grep -E "^test result" | tr '\n' ' ')
+without=$(env ${DEMO_ENV:-} cargo test --offline ${DEMO_ARGS:-} --test demo 2>&1 | grep -E "^test result" | tr '\n' ' ')
 rm -rf tests
 echo "suite(with change): $suite"; echo "demo with change: $with"; echo "demo without change: $without"
 mkdir -p /verif/seeded/$id
@@ -21,7 +21,7 @@ python3 - "$id" "$prop" "$suite" "$with" "$without" <<'PY'
 import json, sys
 id, prop, suite, w, wo = sys.argv[1:6]
 json.dump({"id": id, "breaks_property": prop, "suite_with_change": suite.strip(), "demo_with_change": w.strip(), "demo_without_change": wo.strip(),
-           "confirmed_by": "tools_seedconfirm.sh in the scratch worktree (cargo test --offline; cargo test --offline --test demo with and without the patch)",
+           "confirmed_by": "tools_seedconfirm.sh in the scratch worktree (cargo test --offline; cargo test --offline --test demo with and without the patch; demo environment/flags: %s %s)" % (__import__("os").environ.get("DEMO_ENV",""), __import__("os").environ.get("DEMO_ARGS","")),
            "needs_to_manifest": "see notes.md", "detected_by": "to be filled by tools_seedtest.sh runs (DESIGN.md section 'Seeded changes')"},
           open('/verif/seeded/%s/meta.json' % id, 'w'), indent=1)
 PY
